@@ -10,6 +10,8 @@ package storage
 // Events: wal.len, wal.body, wal.sync, wal.synced (log append);
 // page.write, header.write (data file); page.dirty (a cached page is modified);
 // ddl.changes.done (CREATE TABLE has made its catalog changes, before its own flush).
+// Also: rs.fetch, rs.insert, rs.update, rs.delete, rs.flushwal, rs.end (entry of the
+// relation service calls a statement makes after it has taken the store's lock).
 var VerifPoint func(ev string, off uint64)
 
 func verifPoint(ev string, off uint64) {
